@@ -310,6 +310,10 @@ def valid_responses():
     }
 
 
+class _OverBudget(BaseException):
+    pass
+
+
 class _Cost(object):
     """Deterministic cost of one call: traced line events inside afkak + tracemalloc peak."""
 
@@ -319,6 +323,8 @@ class _Cost(object):
     def _local(self, frame, event, arg):
         if event == "line":
             self.lines += 1
+            if self.lines > self.cap:
+                raise _OverBudget()  # a runaway decode is cut off (and reported) instead of being waited for
         return self._local
 
     def _global(self, frame, event, arg):
@@ -326,8 +332,11 @@ class _Cost(object):
             return self._local
         return None
 
+    cap = 10 ** 9
+
     def measure(self, fn, data):
         self.lines = 0
+        self.cap = 4 * (LINES_PER_BYTE * len(data) + LINES_BASE)
         tracemalloc.start()
         tracemalloc.reset_peak()
         base = tracemalloc.get_traced_memory()[0]
@@ -338,6 +347,8 @@ class _Cost(object):
                 verdict = "value"
             except Exception as e:
                 verdict = "exc:" + type(e).__name__
+            except _OverBudget:
+                verdict = "overbudget"
             except BaseException as e:  # pragma: no cover
                 verdict = "base:" + type(e).__name__
         finally:
@@ -388,6 +399,23 @@ def hostile_unit(u):
                     b = bytearray(valid)
                     b[pos:pos + width] = struct.pack(fmt, hv & ((1 << (8 * width)) - 1))
                     run(bytes(b), "overwrite%d@%d" % (width, pos))
+        # two cooperating fields: a count that claims 2^31-1 elements and, later, a 2- or 4-byte length that would
+        # move the cursor back to any earlier position (a decoder that honours it re-reads the same bytes for ever)
+        n = len(valid)
+        for p1 in range(0, n - 3):
+            if not 0 <= int.from_bytes(valid[p1:p1 + 4], "big") <= 16:
+                continue  # counts of the valid responses are small
+            for width, fmt in ((4, ">i"), (2, ">h")):
+                for p2 in range(p1 + 4, n - width + 1):
+                    # back to the first element of the array whose count was enlarged (the position at which a
+                    # decoder loop would start over)
+                    back = (p1 + 4) - (p2 + width)
+                    if back >= -1:
+                        continue
+                    b = bytearray(valid)
+                    b[p1:p1 + 4] = struct.pack(">i", 0x7FFFFFFF)
+                    b[p2:p2 + width] = struct.pack(fmt, back)
+                    run(bytes(b), "count@%d+backjump%d" % (p1, width))
     if name == "metadata":
         st.samples.append({"decoder": name, "fault": "every 1/2/4-byte window overwritten with %r" % (HOSTILE,)})
     return st
@@ -480,7 +508,9 @@ def run(tier, seed, only=None):
         "followed by plain); every bit of every message's CRC+checksummed region flipped; every burst as capped in "
         "burst_cap; bit flips of inner messages re-wrapped in a valid wrapper; every truncation point of every set; "
         "for each of %d decoders every truncation and every 1/2/4-byte window of a valid response overwritten with "
-        "each of %r under a traced-line and tracemalloc budget linear in the input; all strings of length <= 5 "
+        "each of %r, and every pair (a small integer replaced by 2^31-1, a later 2/4-byte field replaced by the "
+        "negative length that would move the cursor back to the first element after that integer), under a traced-line and "
+        "tracemalloc budget linear in the input; all strings of length <= 5 "
         "over {00,01,7f,80,ff} into every decoder; consumer half: the real Consumer on the (initial buffer, "
         "maximum, message size) grid of C14 must grow its fetch size by the documented rule, fail only when the "
         "maximum is too small and deliver the big message; and with a bit error injected in flight into the "
